@@ -418,3 +418,132 @@ pub fn gen_corpus(seed: u64, cfg: &CorpusCfg) -> Scenario {
     }
     Scenario { seed, env, ops, fault: Default::default(), fault_ops: vec![], post: None, knobs: Default::default() }
 }
+
+// ---------------------------------------------------------------------------------------------
+// C18: read-only handles — committed + pending state, then a read-only session
+pub fn gen_readonly(seed: u64) -> Scenario {
+    let mut r = Rng::new(seed, "readonly");
+    let mut s = gen_corpus(seed, &CorpusCfg { max_docs: 12, with_vec: true, with_images: false, mutate: true });
+    // cut the corpus scenario before its closing battery and append our own ending
+    let cut = s.ops.iter().rposition(|o| matches!(o, Op::Check)).unwrap_or(s.ops.len());
+    let bat: Vec<Op> = s.ops[..cut].iter().filter(|o| matches!(o, Op::Search(_) | Op::Timeline(_) | Op::SearchVec { .. })).take(10).cloned().collect();
+    s.ops.truncate(cut);
+    // leave some records pending in the log
+    for k in 0..r.range(0, 3) {
+        let mut p = PutSpec { pay: Some(Pay::new(PK::Text, r.range(20, 600) as usize, r.next())), ts: Some(k as i64), ..Default::default() };
+        p.uri = Some(format!("mv2://pending/{k}"));
+        s.ops.push(Op::Put(p));
+    }
+    s.ops.push(if r.chance(2, 3) { Op::Abandon } else { Op::Close });
+    for _ in 0..r.range(1, 3) {
+        s.ops.push(Op::OpenRo);
+        s.ops.push(Op::Check);
+        s.ops.extend(bat.iter().cloned());
+        if r.chance(1, 2) {
+            s.ops.push(Op::Verify { deep: r.chance(1, 2) });
+        }
+        s.ops.push(Op::Close);
+    }
+    s.ops.push(Op::Verify { deep: true });
+    s.ops.push(Op::Open);
+    s.ops.push(Op::Check);
+    s.ops.push(Op::Close);
+    s
+}
+
+// C19: single-file guarantee under failing calls and injected I/O errors
+pub fn gen_single_file(seed: u64, max_ops: usize) -> Scenario {
+    let mut r = Rng::new(seed, "singlefile");
+    let mut s = gen_history(seed, max_ops, true, true);
+    match r.below(3) {
+        0 => {}
+        _ => {
+            s.fault.enospc_pm = *r.pickv(&[0u32, 3, 10, 30]);
+            s.fault.eio_pm = *r.pickv(&[0u32, 3, 10]);
+            s.fault.emfile_pm = *r.pickv(&[0u32, 100, 400]);
+            s.fault.short_write_pm = *r.pickv(&[0u32, 50]);
+            s.fault.eintr_pm = *r.pickv(&[0u32, 20]);
+            s.fault.max_errors = r.range(1, 3) as u32;
+        }
+    }
+    // sidecar refusal
+    if r.chance(1, 2) {
+        let names = ["m.mv2-wal", "m.mv2-shm", "m.mv2-lock", "m.mv2-journal", ".m.mv2.wal", ".m.mv2.shm", ".m.mv2.lock", ".m.mv2.journal"];
+        let n = r.pick(&names).to_string();
+        s.ops.push(Op::PlantSidecar { name: n.clone() });
+        s.ops.push(if r.chance(1, 2) { Op::Open } else { Op::OpenRo });
+        s.ops.push(Op::RemoveSidecar { name: n });
+        s.ops.push(Op::Open);
+        s.ops.push(Op::Check);
+        s.ops.push(Op::Close);
+    }
+    s
+}
+
+// C24 / C25: capacity tickets and ticket sequences
+pub fn gen_tickets(seed: u64, capacity_focus: bool) -> Scenario {
+    let mut r = Rng::new(seed, "tickets");
+    let env = env_for(seed, &mut r);
+    let mut ops = vec![Op::Create];
+    let mut seq = 0i64;
+    let n = r.range(4, 22);
+    let mut bound = false;
+    for k in 0..n {
+        let c = r.weighted(&[if capacity_focus { 8 } else { 3 }, if capacity_focus { 3 } else { 6 }, 3, 2, 2, if capacity_focus { 0 } else { 3 }, 1]);
+        match c {
+            0 => {
+                let kind = *r.pickv(&[PK::Bin, PK::Bin, PK::Text, PK::LongText, PK::Compressible]);
+                let len = match kind {
+                    PK::LongText => r.range(2400, 5000),
+                    PK::Text => r.range(10, 2000),
+                    _ => *r.pickv(&[10u64, 200, 900, 3000, 9000]),
+                } as usize;
+                let mut p = PutSpec { pay: Some(Pay::new(kind, len, r.next())), ts: Some(k as i64), ..Default::default() };
+                p.uri = Some(format!("mv2://t/{k}"));
+                ops.push(Op::Put(p));
+            }
+            1 => {
+                // ticket: fresh, stale, equal, negative
+                let sq = match r.below(6) {
+                    0 => seq,
+                    1 => seq - r.range(1, 3) as i64,
+                    2 => -(r.range(1, 5) as i64),
+                    _ => seq + r.range(1, 4) as i64,
+                };
+                if capacity_focus {
+                    ops.push(Op::TicketRel { seq: sq, slack: *r.pickv(&[0u64, 1, 50, 500, 2000, 20_000]) });
+                } else {
+                    ops.push(Op::Ticket { issuer: format!("issuer{}", r.below(3)), seq: sq, capacity: if r.chance(1, 2) { Some(r.range(100_000, 2_000_000)) } else { None } });
+                }
+                if sq > seq {
+                    seq = sq;
+                }
+            }
+            2 => ops.push(Op::Commit),
+            3 => {
+                ops.push(Op::Close);
+                ops.push(Op::Open);
+            }
+            4 => {
+                ops.push(Op::Abandon);
+                ops.push(Op::Open);
+            }
+            5 => {
+                if !bound && r.chance(1, 2) {
+                    ops.push(Op::Bind { memory: 7 });
+                    bound = true;
+                }
+                ops.push(Op::SignedTicket { issuer: "memvid.com".into(), seq: seq + r.range(1, 3) as i64, capacity: Some(1 << 30), memory: if r.chance(3, 4) { 7 } else { 8 }, sig_seed: r.next() });
+            }
+            _ => ops.push(Op::Check),
+        }
+    }
+    ops.push(Op::Commit);
+    ops.push(Op::Close);
+    ops.push(Op::Open);
+    ops.push(Op::Check);
+    // the sequence survives reopen: the last accepted number must be rejected again
+    ops.push(Op::Ticket { issuer: "late".into(), seq, capacity: None });
+    ops.push(Op::Close);
+    Scenario { seed, env, ops, fault: Default::default(), fault_ops: vec![], post: None, knobs: Default::default() }
+}
